@@ -1,0 +1,40 @@
+//go:build verif
+
+package text
+
+// Contracts for text sanitizing and validation (properties C16, C10).
+// Comment-only file: it is compiled only with -tags verif and contains no code.
+
+// unsafeRune: a rune that operations' Validate (through Safe) does not accept in a multi-line text.
+//@ spec func unsafeRune(r rune) bool = unicode.IsControl(r) && r != 9 && r != 10 && r != 13
+// safeFrom(s, p): no rune of s decoded at or after byte position p is unsafe.
+//@ spec func safeFrom(s string, p int) bool = p >= len(s) || (!unsafeRune(runeat(s, p)) && safeFrom(s, p + runewidth(s, p)))
+
+// Safe accepts exactly the strings without unsafe rune.
+//@ func Safe
+//@   props C16
+//@   nopanic
+//@   modifies nothing
+//@   ensures [safe-iff-no-unsafe-rune] result == safeFrom(s, 0)
+//@   loop 1
+//@     invariant 0 <= rangepos && safeFrom(s, 0) == safeFrom(s, rangepos)
+
+// The predicate Cleanup hands to runes.Remove selects exactly the unsafe runes: what Cleanup keeps is what
+// Safe accepts (that runes.Remove/transform.String drop the selected runes and nothing else, and that
+// strings.TrimSpace returns a substring, is the documented behaviour of those libraries - not verified).
+//@ func Cleanup$1
+//@   props C16
+//@   nopanic
+//@   modifies nothing
+//@   ensures [removes-exactly-unsafe] result == unsafeRune(r)
+
+// One-line texts (titles, labels): no control character at all. CleanupOneLine hands unicode.IsControl itself
+// to runes.Remove, SafeOneLine rejects exactly the strings holding such a rune.
+//@ spec func oneLineFrom(s string, p int) bool = p >= len(s) || (!unicode.IsControl(runeat(s, p)) && oneLineFrom(s, p + runewidth(s, p)))
+//@ func SafeOneLine
+//@   props C16
+//@   nopanic
+//@   modifies nothing
+//@   ensures [safe-iff-no-control-rune] result == oneLineFrom(s, 0)
+//@   loop 1
+//@     invariant 0 <= rangepos && oneLineFrom(s, 0) == oneLineFrom(s, rangepos)
